@@ -2,6 +2,7 @@ import Driver.Codec
 import Txtpp.Model.Text
 import Txtpp.Model.Tag
 import Txtpp.Model.Project
+import Txtpp.Model.CoordSim
 open Driver Txt
 
 def tyName : DType → String
@@ -84,6 +85,34 @@ def showFS (fs : FS) : String :=
 def showVerdict : Verdict → String
   | .ok => "ok" | .err => "err" | .circular => "circular" | .panic => "panic" | .outOfFuel => "out-of-fuel"
 
+def showTask : Coord.Task → String
+  | .pp f first => s!"{f}{if first then "a" else "b"}"
+
+def showTasks (l : List Coord.Task) : String := if l.isEmpty then "-" else ".".intercalate (l.map showTask)
+
+def parseNats (s : String) : Option (List Nat) :=
+  if s = "-" then some [] else (s.splitOn ".").mapM String.toNat?
+
+/-- world: per file `deps:failFirst:failFinal`, deps dot-separated -/
+def parseWorld (entries : List String) : Option (List (List Nat × Bool × Bool)) :=
+  entries.mapM (fun (e : String) =>
+    match e.splitOn ":" with
+    | [d, a, b] => (parseNats d).map (fun d => (d, a == "t", b == "t"))
+    | _ => none)
+
+def parseTask (s : String) : Option Coord.Task :=
+  match s.toList.reverse with
+  | 'a' :: r => (String.ofList r.reverse).toNat?.map (fun f => Coord.Task.pp f true)
+  | 'b' :: r => (String.ofList r.reverse).toNat?.map (fun f => Coord.Task.pp f false)
+  | _ => none
+
+def parseOrders (s : String) : Option (List (List Coord.Task)) :=
+  if s = "-" then some [] else
+  (s.splitOn "|").mapM (fun (st : String) => if st = "-" then some [] else (st.splitOn ".").mapM parseTask)
+
+def showSimVerdict : Coord.SimVerdict → String
+  | .ok => "ok" | .err => "err" | .circular => "circular" | .panic => "panic" | .outOfFuel => "out-of-fuel"
+
 def handle (line : String) : String :=
   match line.trimAscii.toString.splitOn " " with
   | ["detect", l] =>
@@ -116,6 +145,17 @@ def handle (line : String) : String :=
       let cfg : Cfg := { mode := mode, trailing := tr == "t", recursive := rec == "t", baseAbs := base, cmds := cmds }
       let (v, fs') := runProject cfg fs inputs
       s!"{showVerdict v} {showFS fs'}"
+    | _, _, _, _, _ => "bad-field"
+  | ["coord", n, inputs, world, choices, orders] =>
+    match n.toNat?, parseNats inputs, parseWorld (splitList world), parseNats choices, parseOrders orders with
+    | some n, some inputs, some wl, some choices, some orders =>
+      let w : Coord.World := {
+        deps := fun f => (wl.getD f ([], false, false)).1,
+        failFirst := fun f => (wl.getD f ([], false, false)).2.1,
+        failFinal := fun f => (wl.getD f ([], false, false)).2.2 }
+      let (v, steps) := Coord.simulate w n wl.length inputs choices orders
+      let ss := steps.map (fun st => s!"{showTasks st.enabled}>{st.choice}>{showTasks st.spawned}")
+      s!"{showSimVerdict v} {if ss.isEmpty then "-" else "|".intercalate ss}"
     | _, _, _, _, _ => "bad-field"
   | _ => "bad-op"
 
